@@ -34,7 +34,7 @@ def run(c):
                  dict(trace=r["trace"], program=r["header"].get("program"), rejected_index=r["index"], events=r["raw"]))
     # 2. fault injection at every backend call of the victim's commit (state claims only)
     gf = _txncfg.gen(c, "f", MaxTxns=3, MaxOps=10, Keys=10, Slots=[2, 4], Rollbacks=False)
-    flt = txnlib.run_driver(c, binp, "fault", _txncfg.cfg(c, "fault", c.pick(1, 16), gf, max_fault=c.pick(24, 0)),
+    flt = txnlib.run_driver(c, binp, "fault", _txncfg.cfg(c, "fault", c.pick(1, 16), gf, max_fault=c.pick(24, 0), directed_max=c.pick(24, 0)),
                             timeout=c.pick(600, 3000))
     rej2 = txnlib.validate(c, flt, "TxnStoreTraceLax.cfg")
     classes = collections.Counter()
